@@ -331,6 +331,22 @@ func c11Rules(c *Ctx) {
 	}
 	add("empty-arguments-without-constructor", "services:\n  svc:\n    value: \"V\"\n    arguments: []\n", true)
 	add("duplicate-tags", "services:\n  svc:\n    value: \"V\"\n    tags: [\"t\", {\"name\": \"t\", \"priority\": 2}]\n", false, "svc")
+	// document markers: one document with explicit markers, and a second document with nothing in it, leave the grammar verdict as it is
+	{
+		body := "services:\n  a:\n    value: \"V\"\n    tags: [\"t\", {\"name\": \"u\", \"priority\": 2}]\n    calls: [[\"M\"]]\ndecorators:\n  - tag: \"t\"\n    decorator: \"Dec\"\n"
+		bad := "services:\n  svc:\n    value: \"V\"\n    tags: [\"t\", \"t\"]\n"
+		for k, f := range []func(string) string{
+			func(b string) string { return "---\n" + b },
+			func(b string) string { return b + "...\n" },
+			func(b string) string { return "--- # one\n" + b + "...\n" },
+			func(b string) string { return b + "---\n" },
+			func(b string) string { return "---\n" + b + "---\n# nothing\n" },
+			func(b string) string { return b + "---\n...\n" },
+		} {
+			add(fmt.Sprintf("document-markers-%d:valid", k), f(body), true)
+			add(fmt.Sprintf("document-markers-%d:duplicate-tag", k), f(bad), false, "svc")
+		}
+	}
 	add("same-tag-on-two-services", "services:\n  a:\n    value: \"V\"\n    tags: [\"t\"]\n  b:\n    value: \"V\"\n    tags: [\"t\"]\n", true)
 	for _, sc := range []string{"shared", "contextual", "non_shared"} {
 		add("scope:"+sc, "services:\n  svc:\n    value: \"V\"\n    scope: \""+sc+"\"\n", true)
